@@ -36,6 +36,13 @@ static void sc_streams(int nes, ABT_sched_predef sched)
     ABT_OK(ABT_xstream_get_main_pools(sc_xs[0], 1, &sc_pool[0]));
     vsa_name_xstream(sc_xs[0], "X0");
     vsa_name_pool(sc_pool[0], "P0");
+    {
+        /* the primary ULT takes part in some scenarios (set-up calls): it is actor A99 */
+        ABT_thread self;
+        ABT_OK(ABT_thread_self(&self));
+        vsa_name_thread(self, "A99");
+        vs_note("actor A99 kind=ult es=0");
+    }
     for (int i = 1; i < nes; i++) {
         ABT_OK(ABT_pool_create_basic(ABT_POOL_FIFO, ABT_POOL_ACCESS_MPMC, ABT_TRUE, &sc_pool[i]));
         vsa_name_pool(sc_pool[i], "P%d", i);
